@@ -1,13 +1,12 @@
 SPECIFICATION Spec
 CONSTANTS
-  NFields = 2
-  MaxSteps = 3
+  NFields = 1
+  MaxSteps = 2
   MaxSigMut = 1
   LegacyAccepted = FALSE
   ResignKeepsCache = FALSE
-  ServeUnchecked = FALSE
+  ServeUnchecked = TRUE
 INVARIANTS TypeOK SenderIsSigner ExactFieldsAndChain MalleableRejected PoolCheckedIsVerified
 PROPERTIES PoolHitExact AnswerIsRecover BlockAcceptsOnlyVerified BlockAcceptsVerified
-ACTION_CONSTRAINT Edge
 VIEW View
 CHECK_DEADLOCK FALSE
